@@ -57,7 +57,7 @@ ASSUMPTIONS = [
 ]
 
 MAX_POOL = 8
-MAX_WEIGHT = 1500  # generator stops growing a member whose expression tree would exceed this (2**k blow-up of x = f(x, x))
+MAX_WEIGHT = 1000  # generator stops growing a member whose expression/graph-construction cost estimate would exceed this
 DTYPES = ("i8", "f8", "bool")
 REFKEYS = ("src", "tgt", "other")
 
@@ -193,6 +193,13 @@ def is_full_dmask(key, ndim):
 
 def has_neg_step(index_enc):
     return any(isinstance(e, dict) and "slice" in e and e["slice"][2] is not None and e["slice"][2] < 0 for e in index_enc["tuple"])
+
+
+def n_blocks(coll):
+    try:
+        return max(1, int(np.prod([len(c) for c in coll.chunks])))
+    except Exception:
+        return 1
 
 
 def has_zero_chunk(coll):
@@ -629,9 +636,11 @@ class Interp:
             idx = self._basic_index(step["index"])
             assert not v.unknown
             try:
-                m[idx]
+                r0 = m[idx]
             except IndexError as e:
                 raise AssertionError(f"invalid slice: {e}")
+            # NumPy hands out the float64 constant np.ma.masked for a masked 0-d element: not a usable reference
+            assert not (v.masked and np.ndim(r0) == 0), "0-d selection of a masked array"
             return (lambda c: c[idx]), (lambda a: a[idx]), []
         if kind == "add1":
             return (lambda c: c + 1), (lambda a: a + 1), []
@@ -747,6 +756,8 @@ class Interp:
         was_unknown = t.unknown
         self.labels.add("compute_chunk_sizes")
         self.labels.add("ccs:unknown" if was_unknown else "ccs:known")
+        if t.uout:
+            self.tags.add(KF_SLICE_UOUT)  # compute_chunk_sizes slices a map_blocks of the collection
         others = [e for _, e in self.live() if e is not t and t.eid in e.anc]
         if t.computed:
             self.labels.add("mutation-after-compute")
@@ -859,12 +870,17 @@ class Interp:
         # --- success on both sides
         t.mirror = m2
         t.nmut += 1
+        old_weight = t.weight
         for w in kdeps + vdeps:
             if w is not t:
                 t.anc |= w.anc | {w.eid}
             t.uout = t.uout or w.uout
-            t.weight += w.weight
-        t.weight += 1
+        # SetItem materialises the value's whole graph once per target block (nested self-referential assignments
+        # cost blocks**depth); a full-shape dask mask goes through da.where instead
+        mult = 1 if dmask_key else n_blocks(t.coll)
+        t.weight = old_weight + 1 + sum((old_weight if w is t else w.weight) for w in kdeps) + mult * sum((old_weight if w is t else w.weight) for w in vdeps)
+        if not dmask_key and any(isinstance(e, dict) and "dask" in e for e in key["tuple"]):
+            t.weight += mult
         t.tags |= self.tags | {x for w in kdeps + vdeps for x in w.tags}
         t.anc.discard(t.eid)
         for lab in labs:
@@ -1139,6 +1155,8 @@ def gen_derive(D_, it, family="any"):
     step = {"op": "derive", "src": i, "kind": kind, "cold": D_.chance(1, 3)}
     if kind == "slice":
         step["index"] = _enc_index(gidx.gen_basic_index(D_, m.shape, allow_none=False))
+        if v.masked and np.ndim(m[gidx.dec(step["index"])]) == 0:
+            step["index"] = {"tuple": []}
         if has_neg_step(step["index"]) and has_zero_chunk(v.coll) and _steer(KF_NEG_ZERO_CHUNK):
             it.excluded.append(KF_NEG_ZERO_CHUNK)
             step["index"] = {"tuple": _no_neg(step["index"]["tuple"])}
@@ -1350,7 +1368,7 @@ def _gen_value(D_, it, i, t, key, sel):
         return "masked"
     if k == "scalar":
         return {"scalar": _gen_scalar(D_)}
-    if props["separated"]:
+    if props["separated"] and _steer(KF_SEPARATED):
         it.excluded.append(KF_SEPARATED)
         return {"scalar": _gen_scalar(D_)}
     if props["int_before_intarr"] and _steer(KF_INT_BEFORE):
@@ -1376,7 +1394,10 @@ def _gen_value(D_, it, i, t, key, sel):
     if k == "dpool":
         no_uout = _steer(KF_SLICE_UOUT)
         no_zero = _steer(KF_NEG_ZERO_CHUNK)
-        cands = _members(it, lambda e: _plain(e) and e.mirror.ndim >= len(vs) and not (no_uout and e.uout) and not (no_zero and has_zero_chunk(e.coll)))
+        room = (MAX_WEIGHT - t.weight) / n_blocks(t.coll)
+        cands = _members(it, lambda e: _plain(e) and e.mirror.ndim >= len(vs) and e.weight <= room and not (no_uout and e.uout) and not (no_zero and has_zero_chunk(e.coll)))
+        if not cands:
+            it.labels.add("size-cap")
         rel = [c for c in cands if it.pool[c] is t or t.eid in it.pool[c].anc]
         j = D_.choice(rel) if rel and D_.chance(1, 2) else (D_.choice(cands) if cands else None)
         idx = fit_index(D_, it.pool[j].shape, vs) if j is not None else None
@@ -1541,6 +1562,9 @@ def gen_ufunc(D_, it):
 
 def gen_ccs(D_, it):
     cands = _members(it)
+    if _steer(KF_SLICE_UOUT) and any(it.pool[c].uout for c in cands):
+        it.excluded.append(KF_SLICE_UOUT)
+        cands = [c for c in cands if not it.pool[c].uout]
     unk = [c for c in cands if it.pool[c].unknown]
     if not cands:
         return None
@@ -1930,7 +1954,7 @@ REGION_DOC = {
     KF_MASKED_0D: "x[...] = np.ma.masked on a 0-d x",
     KF_NEG_ZERO_CHUNK: "negative-step slice of a collection whose chunks contain a zero-width block next to other blocks (typical after compute_chunk_sizes)",
     KF_OUT_DTYPE: "ufunc(..., out=v) whose natural result dtype differs from v's dtype",
-    KF_SLICE_UOUT: "a basic index / boolean mask applied to a collection whose expression contains an ufunc out= result",
+    KF_SLICE_UOUT: "a basic index / boolean mask (or compute_chunk_sizes, which slices internally) applied to a collection whose expression contains an ufunc out= result",
 }
 
 
